@@ -38,6 +38,11 @@ POINTS = {
     ("pandera/api/dataframe/components.py", "validate"),
     ("pandera/api/dataframe/components.py", "set_name"),
     ("pandera/validation_depth.py", "wrapper"),
+    # every place a component's flags are read for coercion
+    ("pandera/api/dataframe/components.py", "coerce_dtype"), ("pandera/api/pandas/array.py", "coerce_dtype"),
+    ("pandera/api/dataframe/container.py", "coerce_dtype"),
+    ("pandera/backends/pandas/array.py", "coerce_dtype"), ("pandera/backends/pandas/components.py", "coerce_dtype"),
+    ("pandera/backends/pandas/container.py", "_coerce_column"), ("pandera/backends/pandas/container.py", "_try_coercion"),
 }
 
 
@@ -168,7 +173,15 @@ def jobsets():
         return {"schemas": [s1, s2, s3],
                 "jobs": {"A": lambda: s1.validate(d_ok), "B": lambda: s2.validate(d_bad), "C": with_ctx},
                 "region": None, "name": "pandas-three-threads-config-context"}
-    sets += [pandas_shared, pandas_distinct, pandas_regex_shared, pandas_three]
+    # 5. pandas, ONE schema object, coercion requested at the dataframe level only: the components' own flags are
+    #    never overridden to a different value, so no interference is expected (not part of the recorded region)
+    def pandas_shared_frame_coerce():
+        s = pa.DataFrameSchema({"a": pa.Column(int, pa.Check.gt(0)), "b": pa.Column(float)}, coerce=True)
+        good = pd.DataFrame({"a": ["1", "2"], "b": ["1.5", "2"]})
+        bad = pd.DataFrame({"a": ["1", "-2"], "b": ["1", "2"]})
+        return {"schemas": [s], "jobs": {"A": lambda: s.validate(good), "B": lambda: s.validate(bad)},
+                "region": None, "name": "pandas-same-schema-frame-level-coerce"}
+    sets += [pandas_shared, pandas_distinct, pandas_regex_shared, pandas_three, pandas_shared_frame_coerce]
     try:
         import polars as pl
         import pandera.polars as pap
@@ -202,6 +215,12 @@ def schedules_for(names, rng, n_random, exhaustive_len):
     # systematic: every schedule of `exhaustive_len` turns followed by free running
     for combo in itertools.product(names, repeat=exhaustive_len):
         out.append(list(combo))
+    # preemption-bounded: one thread runs i gates, another j gates, then the first runs on (two context switches)
+    if len(names) == 2:
+        for a, b in ((names[0], names[1]), (names[1], names[0])):
+            for i in range(0, 13):
+                for j in range(1, 13):
+                    out.append([a] * i + [b] * j + [a] * 60)
     for _ in range(n_random):
         k = rng.randint(4, 24)
         out.append([rng.choice(names) for _ in range(k)])
